@@ -52,16 +52,22 @@ pub fn judge(ctx: &Ctx, l: &mut Local, b: &Base, base_r: &R, key: Prayer, k: i64
 
 /// offset = k + frac seconds (frac moves the sub-second phase of every swept instant)
 pub fn judge_at(ctx: &Ctx, l: &mut Local, b: &Base, base_r: &R, key: Prayer, k: i64, frac: f64) {
+    judge_minutes(ctx, l, b, base_r, key, (k as f64 + frac) / 60.0, k, frac)
+}
+
+/// the offset given as the exact f64 number of minutes; `k` = that offset in whole seconds (for the binding
+/// of the unrounded output to base time + offset), `frac` != 0 widens that binding to +-2 s
+pub fn judge_minutes(ctx: &Ctx, l: &mut Local, b: &Base, base_r: &R, key: Prayer, minutes: f64, k: i64, frac: f64) {
     let mut p = b.params.clone();
     p.round_seconds = RoundSeconds::None;
-    p.minutes.insert(key, (k as f64 + frac) / 60.0);
+    p.minutes.insert(key, minutes);
     let p = p;
     let r0 = pt(&p, b.site.loc(), b.date, None);
     l.evals += 1;
     let case = |mode: RoundSeconds| {
         let mut q = p.clone();
         q.round_seconds = mode;
-        PtCase::new(&q, b.site, b.date).with_extra(json!({"swept_key": format!("{:?}", key), "offset_seconds": k}))
+        PtCase::new(&q, b.site, b.date).with_extra(json!({"swept_key": format!("{:?}", key), "offset_seconds": k, "offset_minutes_f64_bits": minutes.to_bits().to_string()}))
     };
     // binding of the unrounded output to true time: base time + k seconds (+-1 s float/truncation)
     for pr in SEQ7 {
@@ -118,6 +124,31 @@ pub fn judge_at(ctx: &Ctx, l: &mut Local, b: &Base, base_r: &R, key: Prayer, k: 
     }
 }
 
+/// Offsets (exact f64 minutes) around the midnight frontiers of the swept prayer: where its unrounded
+/// time flips from 23:59:59 to 00:00:00 because the intermediate hour crosses -24, 0, 24 or 48, located
+/// to adjacent f64s by bisection; returned: the bisection probes and +-64 units in the last place on
+/// both sides of each flip. (A lattice of whole seconds never lands on "the hour is exactly 24.0" or on
+/// "the hour is the smallest negative number".)
+pub fn midnight_frontier_minutes(b: &Base, base_r: &R, key: Prayer) -> Vec<f64> {
+    let Some(t) = secs(base_r, key) else { return vec![] };
+    let mut out = vec![];
+    for n in [-1i64, 0, 1, 2] {
+        let c = (n * 86400 - t) as f64 / 60.0;
+        let after = |x: f64| {
+            let mut p = b.params.clone();
+            p.round_seconds = RoundSeconds::None;
+            p.minutes.insert(key, x);
+            secs(&pt(&p, b.site.loc(), b.date, None), key).map(|s| s < 43200).unwrap_or(false)
+        };
+        if let Some((lo, hi, seen)) = bisect_flip(c - 2.0, c + 2.0, after) {
+            out.extend(seen);
+            out.extend(ulp_neighbourhood(lo, 64));
+            out.extend(ulp_neighbourhood(hi, 64));
+        }
+    }
+    out
+}
+
 pub fn bases(tier: Tier) -> Vec<Base> {
     let mut v = vec![Base { site: Site::new(39.0, -77.0, 0.0, -5.0), date: ymd(2023, 2, 6), params: params_conv(Method::Mwl) }];
     // flagged (extreme) times: the flag must survive rounding
@@ -146,6 +177,7 @@ pub fn explore(ctx: &Ctx) {
     let bs = bases(ctx.tier);
     ctx.alphabet("bases", json!(bs.iter().map(|b| json!({"site": b.site, "date": date_json(b.date), "params": params_key(&b.params)})).collect::<Vec<_>>()));
     ctx.alphabet("offset_seconds", json!({"from": -KMAX, "to": KMAX, "step": 1, "plus_minutes": [-1500, 1500]}));
+    ctx.alphabet("midnight_frontier", json!("per base and key: the offsets at which the hour crosses -24/0/24/48, bisected to adjacent f64s, +-64 ulp on both sides"));
     ctx.alphabet("keys", json!(["Fajr(+Imsaak)", "Shurooq", "Dhuhr", "Asr", "Maghrib", "Isha"]));
     ctx.alphabet("modes", json!(4));
     let mut jobs = vec![];
@@ -173,10 +205,47 @@ pub fn explore(ctx: &Ctx) {
             }
         }
     });
+    // offsets of several days: every second within +-90 s of each instant at which the intermediate hour
+    // crosses a multiple of 24 (n = -3..=3), and the whole span -3..+3 days at a 61 s stride
+    let quick = ctx.tier == Tier::Quick;
+    ctx.alphabet("multi_day_offsets", json!({"span_days": [-3, 3], "stride_s": 61, "dense_windows": "+-90 s around base + k = n x 24 h, n = -3..=3"}));
+    let mut jobs2 = vec![];
+    for (bi, _) in bs.iter().enumerate() {
+        if quick && bi == 1 {
+            continue;
+        }
+        for key in SIX {
+            jobs2.push((bi, key));
+        }
+    }
+    par_jobs(ctx, &jobs2, |(bi, key), l| {
+        let (b, br) = (&bs[*bi], &base_rs[*bi]);
+        let mut k: i64 = -3 * 86400;
+        while k <= 3 * 86400 {
+            if k.abs() > KMAX {
+                judge(ctx, l, b, br, *key, k);
+            }
+            k += 61;
+        }
+        if let Some(t) = secs(br, *key) {
+            for n in -3i64..=3 {
+                for k in (n * 86400 - t - 90)..=(n * 86400 - t + 90) {
+                    if k.abs() > KMAX {
+                        judge(ctx, l, b, br, *key, k);
+                    }
+                }
+            }
+        }
+        // the midnight frontiers to the last bit
+        for x in midnight_frontier_minutes(b, br, *key) {
+            judge_minutes(ctx, l, b, br, *key, x, (x * 60.0).round() as i64, 0.5);
+            l.count("midnight_frontier_probes", 1);
+        }
+    });
 }
 
 pub fn replay(ctx: &Ctx, _clause: &str, case: &Value) {
-    let c: PtCase = serde_json::from_value(case.clone()).expect("case");
+    let c: PtCase = serde_json::from_value::<PtCase>(case.clone()).map(PtCase::fix).expect("case");
     let mut l = Local::default();
     let key = SEQ7.into_iter().find(|p| format!("{:?}", p) == c.extra["swept_key"].as_str().unwrap_or("")).unwrap_or(Prayer::Fajr);
     let k = c.extra["offset_seconds"].as_i64().unwrap_or(0);
@@ -185,6 +254,9 @@ pub fn replay(ctx: &Ctx, _clause: &str, case: &Value) {
     bp.round_seconds = RoundSeconds::None;
     let b = Base { site: c.site, date: c.date, params: bp };
     let base_r = pt(&b.params, b.site.loc(), b.date, None);
-    judge(ctx, &mut l, &b, &base_r, key, k);
+    match c.extra["offset_minutes_f64_bits"].as_str().and_then(|x| x.parse::<u64>().ok()) {
+        Some(bits) => judge_minutes(ctx, &mut l, &b, &base_r, key, f64::from_bits(bits), k, 0.5),
+        None => judge(ctx, &mut l, &b, &base_r, key, k),
+    }
     println!("  result: {}", fmt_r(&c.run()));
 }
